@@ -435,7 +435,12 @@ CHECKS = {
        "services) in-process over bufconn; every unary RPC x role x selected database x credential scenario (valid token/session, none, closed, "
        "unknown, expired, deactivated, re-permissioned, also after several logins; auth-off and maintenance servers) is compared with the model's "
        "verdict; the oracle (independent of the model) checks that a changed database implies write permission, returned canary data implies read "
-       "permission, systemdb only changes through administration RPCs, and refused credentials change and return nothing.",
+       "permission, systemdb only changes through administration RPCs, and refused credentials change and return nothing. "
+       "Long-lived streams: the extractor records for every streaming handler whether getDBFromCtx lies on the unconditional path of every iteration "
+       "of its receive loop or only before it (Gen/Streams.lean); theorems: every handler that takes more than one request per stream gates every "
+       "request, and a further request on an open stream is allowed only for what the server holds about the credential NOW. The harness opens every "
+       "streaming RPC of the descriptors, gets one unit served, withdraws access (deactivate, revoke, lower, close/expire session, logout) and "
+       "continues the SAME stream: a request answered although a fresh call is refused is an oracle failure.",
   note=TB + " Modelled rather than verified: the caller is described by what the SERVER holds about the credential (cached user data, login counter, "
        "session snapshot) - the gap between that and the truth is covered by the oracle only (it found the outdated-login-list defect); SQL GRANT-level "
        "privileges are an input bit; request validation that precedes the gate is avoided by sending valid requests; remote-client restriction "
